@@ -927,7 +927,17 @@ class DataType(object):
         return normalized
 
     def _normalize_boolean(self, values):
-        return {'true' if value in (True, 'true', 'True', 1) else 'false' for value in values}
+        normalized = set()
+        for value in values:
+            if value in (True, 'true', 'True', 1):
+                normalized.add('true')
+            elif value in (False, 'false', 'False', 0):
+                normalized.add('false')
+            else:
+                raise EDXMLEventValidationError(
+                    'Invalid boolean value in list: "%s"' % '","'.join([repr(value) for value in values])
+                )
+        return normalized
 
     def normalize_objects(self, values):
         """Normalize values to valid EDXML object value strings
